@@ -218,6 +218,23 @@ def rule_inventory(ctx: Ctx):
     for key in WRITTEN_OK:
         if key not in inventory:
             rep.count("triaged_objects_absent", 1)
+    # the private fallback loop is per *thread*: a thread-local holder.  A context variable is copied into worker threads
+    # (asyncio.to_thread, copy_context().run), a plain global is shared by all of them: two machines driven from two such
+    # workers would then run their coroutines on one loop ("This event loop is already running").
+    um = ctx.p.by_rel.get("statemachine/utils.py")
+    holders = []
+    if um is not None:
+        for nm, val in um.assigns.items():
+            if "loop" in nm.lower():
+                holders.append((nm, val))
+    rfs = ctx.p.find_fn("run_async_from_sync")
+    for nm, val in holders:
+        used = rfs is not None and any(isinstance(n, ast.Name) and n.id == nm for n in ast.walk(rfs.node))
+        if not used:
+            continue
+        ctor = show(val.func) if isinstance(val, ast.Call) else show(val)
+        rep.check(ctor in ("threading.local", "local"), "C16.inventory", f"{um.rel} {nm}", "the holder of the private fallback event loop is "
+                  "thread-local (one loop per thread, never inherited by or shared with another thread)", f"{um.rel}::{nm}", f"{nm} = {show(val)}")
 
 
 def _stmt(fn: FuncInfo, node: ast.AST) -> ast.AST:
